@@ -337,12 +337,43 @@ def r4(ctx):
       continue            # no result struct at all (one-way / unknown method)
     n_void += 1
     no_spec = ('result_spec', False) in conds or ('notresult_spec', True) in conds
-    spec_iters = set(['result_spec[1:]'] + [U(st.targets[0]) for st in walk_no_nested(f.node) if isinstance(st, ast.Assign) and U(st.value).replace(' ', '') == 'result_spec[1:]'])
-    scanned = any(e.kind in ('for_done', 'for_iter') and U(e.node.iter).replace(' ', '') in spec_iters for e in ev)
+    spec_iters = set(['result_spec[1:]'] + [U(st.targets[0]) for st in walk_no_nested(f.node) if isinstance(st, ast.Assign) and 'result_spec[1:]' in U(st.value).replace(' ', '')])
+    scanned = any(e.kind in ('for_done', 'for_iter') and (U(e.node.iter).replace(' ', '') in spec_iters or 'result_spec[1:]' in U(e.node.iter).replace(' ', '')) for e in ev)
     okscan = okscan and (no_spec or scanned)
   ctx.ob('C14.R4', f, 'void completion only after the declared-exception scan', okscan and n_void >= 1,
          'a path returns an empty MethodReturnMessage for a present result struct without scanning thrift_spec[1:] (%d void paths)' % n_void,
          'a void method that declares exceptions must raise a thrown declared exception, not complete with None')
+  # thrift_spec is indexed by field id and holds None for ids the IDL does not use (throws (1: A a, 3: B b)):
+  # an entry may be subscripted only once it is known not to be None
+  n_scan = 0
+  for lp in [n for n in ast.walk(f.node) if isinstance(n, ast.For) and isinstance(n.target, ast.Name)]:
+    it = lp.iter
+    src = it
+    if isinstance(it, ast.Name):
+      d_ = [st.value for st in walk_no_nested(f.node) if isinstance(st, ast.Assign) and U(st.targets[0]) == it.id]
+      src = d_[-1] if d_ else it
+    if '[1:]' not in U(src).replace(' ', ''):
+      continue
+    n_scan += 1
+    v = lp.target.id
+    filtered = isinstance(src, (ast.ListComp, ast.GeneratorExp)) and any(
+      U(c).replace(' ', '') in ('%sisnotNone' % g.target.id, g.target.id) for g in src.generators if isinstance(g.target, ast.Name) for c in g.ifs)
+    okn = filtered
+    if not filtered:
+      okn = True
+      for ev, ex in enum_paths(ctx, f, body=lp.body):
+        for i, e in enumerate(ev):
+          uses = []
+          if e.kind in ('stmt', 'cond', 'ret', 'call'):
+            uses = [x for x in ast.walk(e.node) if isinstance(x, ast.Subscript) and U(x.value) == v]
+          if uses:
+            fs = FACTS(ev[:i])
+            if not ((v, True) in fs or ('%sisnotNone' % v, True) in fs or ('%sisNone' % v, False) in fs):
+              okn = False
+    ctx.ob('C14.R4', f, 'unused field ids (None entries of thrift_spec) are skipped by the declared-exception scan', okn,
+           'the scan subscripts every entry of thrift_spec[1:]; for a method that throws (1: A a, 3: B b) entry 2 is None and e[2] raises TypeError',
+           'a declared exception must reach the caller as that exception (and a void/normal reply as its value) for every method of every interface')
+  ctx.ob('C14.R4', f, 'the declared-exception scan exists', n_scan >= 1, 'no loop over thrift_spec[1:]', why, nontrivial=False)
   # a result class that exists is read before classification
   okread = all(any(call_attr(c) == 'read' for c in calls) for r, conds, calls, ev in rets
                if any(c.replace(' ', '') == 'result_cls' and t for c, t in POS(conds)))
